@@ -99,6 +99,8 @@ VFinish(e) ==
               ELSE IF C.op = "overwrite" /\ ~SeenRecoverable(ws, C.K) THEN {"Unrecoverable"}
               ELSE {}
   IN IF ws.phase \notin {"survey", "write"} THEN Rej("conf_finish_phase")
+     \* a repairer (check_and_repair) that found nothing to repair: it never published
+     ELSE IF e.res = "noop" THEN (IF published THEN Rej("conf_noop_after_publish") ELSE V("", srv, [wr EXCEPT ![e.w] = Finished(ws, "noop")], gh))
      ELSE IF published /\ ws.pend # {} THEN Rej("C47_FinishBeforeAllAnswers")
      ELSE IF gh[e.w].met /\ e.res # "UCWE" THEN Rej("C12_Detect")
      ELSE IF e.res = "ok" /\ ~(published /\ nacked >= C.K /\ ~gh[e.w].met) THEN Rej("C47_SuccessGuard")
